@@ -7,6 +7,7 @@
 set -e
 S="$(cd "$1" && pwd)"; TIER="${2:-quick}"
 PROP=$(python3 -c "import json,sys; print(json.load(open('$S/meta.json'))['property'])")
+[ -n "$3" ] && PROP="$3"   # optional: run ANOTHER property's check against this change
 NAME=$(basename "$S")
 W=/tmp/seedrun-$NAME-$$
 mkdir -p "$W"
